@@ -56,6 +56,30 @@ def ranks(E, S):
     return [(c, rk(c)) for c in S]
 
 
+def effective(c):
+    """the documented override: of two root classes with one name the LAST one listed is used: the overridden class
+    leaves the graph (roots and edges are redirected to the overriding class)"""
+    spec = c["spec"]; roots = list(c["roots"])
+    sub = {}
+    for i, d in enumerate(spec):
+        j = d.get("same_name_as")
+        if j is not None and i in roots and j in roots and roots.index(i) > roots.index(j):
+            sub[j] = i
+    if not sub:
+        return c
+    red = lambda l: [sub.get(x, x) for x in l]
+    nspec = []
+    for i, d in enumerate(spec):
+        d = dict(d)
+        for k in ("fields", "members", "late_members", "depends"):
+            if k in d: d[k] = red(d[k])
+        for k in ("item", "target"):
+            if k in d: d[k] = sub.get(d[k], d[k])
+        nspec.append(d)
+    nroots = [r for r in roots if r not in sub]
+    return dict(c, spec=nspec, roots=nroots, overridden=sorted(sub))
+
+
 def case_term(c):
     spec = c["spec"]; E = edges_of(spec)
     g = "; ".join("mkN %d %s %s" % (i, zlist(E[i]), "true" if d["kind"] in ("struct", "array", "ref", "union") else "false") for i, d in enumerate(spec))
@@ -111,6 +135,7 @@ def run(ctx):
         cs += run_impl(ctx, "topo", {"replay": corpus}, tag="corpus")["cases"]
     for r in run_impl_parallel(ctx, "topo", payloads):
         cs += r["cases"]
+    cs = [effective(c) for c in cs]
     SH = 600
     files = [("cases_C14_%d" % (i // SH), cases_file(cs[i:i + SH])) for i in range(0, len(cs), SH)]
     res = coq_eval_many(ctx, files)
@@ -156,6 +181,8 @@ def run(ctx):
         for d in c["spec"]:
             hist["kind:" + d["kind"]] += 1
         if any(d["kind"] == "struct" and not d["fields"] for d in c["spec"]): hist["has-field-less-struct"] += 1
+        if c.get("overridden"): hist["same-named-overriding-root"] += 1
+        if any(d.get("depends") and d["kind"] != "struct" for d in c["spec"]): hist["declared-dependency-on-union-or-named-array"] += 1
         if len(S) >= 2:
             distinct.add(hashlib.sha1(json.dumps([c["spec"], c["roots"]], sort_keys=True).encode()).hexdigest())
     cov = dict(evaluations=len(cs), distinct_nontrivial=len(distinct), builds=nbuild,
@@ -163,7 +190,7 @@ def run(ctx):
                samples=[{"spec": cs[-1]["spec"], "roots": cs[-1]["roots"], "res": cs[-1]["res"]}],
                distribution=dict(sorted(hist.items())), corpus_cases=len(corpus))
     return finish(ctx, "proof", obl, cov,
-                  ["class names are unique within a graph", "that the emitted source compiles is a runtime fact about cffi/gcc: exercised on a sample of real builds (supporting test), not proved",
+                  ["class names are unique within a graph except for the documented override (two roots of one name: the last one listed is used)", "that the emitted source compiles is a runtime fact about cffi/gcc: exercised on a sample of real builds (supporting test), not proved",
                    "which classes have a C API is taken from the class kind (struct/array/ref/unionref yes; scalars/String no)"])
 
 
